@@ -147,12 +147,16 @@ class AnsiDecoder:
                     _params, semicolon, link = osc[2:].partition(";")
                     if semicolon:
                         self.style = self.style.update_link(link or None)
-            elif sgr:
+            elif sgr is not None and osc is None:
+                # An SGR sequence (a text token has osc == "", an OSC match has sgr None)
                 # Translate in to semi-colon separated codes
                 # Ignore invalid codes, because we want to be lenient
                 codes = []
                 for _code in sgr.split(";"):
-                    if _code.isdigit():
+                    if not _code:
+                        # an omitted parameter stands for 0, so "\x1b[m" is a reset (ECMA-48 5.4.2)
+                        codes.append(0)
+                    elif _code.isdigit():
                         # isdigit() admits what int() rejects ("\xb2", very long numbers)
                         with suppress(ValueError):
                             codes.append(min(255, int(_code)))
